@@ -2,10 +2,10 @@ package main
 
 import (
 	"fmt"
-	"sort"
-	"strings"
 	"go/token"
 	"go/types"
+	"sort"
+	"strings"
 	"unicode/utf8"
 
 	"golang.org/x/tools/go/ssa"
